@@ -168,6 +168,8 @@ func (k msgServer) MsgLiquidateBorrow(c context.Context, msg *types.MsgLiquidate
 			if err != nil {
 				return nil, err
 			}
+			// the seized principal leaves the pool's borrowed total (as in the block sweep)
+			k.lend.UpdateBorrowStats(ctx, lendPair, borrowPos.IsStableBorrow, borrowPos.AmountOut.Amount, false)
 		}
 	} else {
 		if borrowPos.BridgedAssetAmount.Denom == firstBridgedAsset.Denom {
@@ -183,6 +185,8 @@ func (k msgServer) MsgLiquidateBorrow(c context.Context, msg *types.MsgLiquidate
 				if err != nil {
 					return nil, err
 				}
+				// the seized principal leaves the pool's borrowed total (as in the block sweep)
+				k.lend.UpdateBorrowStats(ctx, lendPair, borrowPos.IsStableBorrow, borrowPos.AmountOut.Amount, false)
 			}
 		} else {
 			currentCollateralizationRatio, _ = k.lend.CalculateCollateralizationRatio(ctx, borrowPos.AmountIn.Amount, assetIn, borrowPos.AmountOut.Amount.Add(borrowPos.InterestAccumulated.TruncateInt()), assetOut)
@@ -198,6 +202,8 @@ func (k msgServer) MsgLiquidateBorrow(c context.Context, msg *types.MsgLiquidate
 				if err != nil {
 					return nil, err
 				}
+				// the seized principal leaves the pool's borrowed total (as in the block sweep)
+				k.lend.UpdateBorrowStats(ctx, lendPair, borrowPos.IsStableBorrow, borrowPos.AmountOut.Amount, false)
 			}
 		}
 	}
